@@ -139,6 +139,23 @@ def templates(cfg):
         return t >> p.mutate(a=e) >> p.mutate(d=e) >> p.select(p.C.d, p.C.a) >> p.mutate(a=e)
 
     out.append(Template("c02.t.reuse_arith_expr", T_I3, reuse_arith, props=("C02",)))
+    # drop / select only hide columns: the remaining ones keep their relative order, also after an
+    # overwriting mutate (compared with the same pipeline without the helper column, prog2)
+    def E(name, A, B):
+        out.append(Template(f"c02.t.{name}", T_I3, A, prog2=B, props=("C02",)))
+
+    E("drop_keeps_order_after_overwrite",
+      lambda p, t: t >> p.mutate(a=t.a + 1, tmp=t.b * 2) >> p.drop(p.C.tmp),
+      lambda p, t: t >> p.mutate(a=t.a + 1))  # fmt: skip
+    E("drop_keeps_order_overwrite_mid",
+      lambda p, t: t >> p.mutate(tmp=t.c) >> p.mutate(b=t.b - 1) >> p.drop(p.C.tmp) >> p.mutate(z=p.C.b),
+      lambda p, t: t >> p.mutate(b=t.b - 1) >> p.mutate(z=p.C.b))  # fmt: skip
+    E("select_all_keeps_order_after_overwrite",
+      lambda p, t: (lambda d: d >> p.select(*[c for c in d]))(t >> p.mutate(a=t.c, b=t.a)),
+      lambda p, t: t >> p.mutate(a=t.c, b=t.a))  # fmt: skip
+    E("rename_keeps_order_after_overwrite",
+      lambda p, t: t >> p.mutate(a=t.a * 2) >> p.rename({"b": "x"}) >> p.rename({"x": "b"}),
+      lambda p, t: t >> p.mutate(a=t.a * 2))  # fmt: skip
     L = 2 if cfg.tier == "quick" else 3
     keys = [k for k in STEPS if k not in ("slice", "slice_off", "sel_names", "slice_past", "slice_big", "slice1", "arr_names", "fil_name_a", "mut_name_d")]
     seqs = []
